@@ -27,6 +27,10 @@ type Q struct {
 type C04Plan struct {
 	Hist    *hist.Plan `json:"hist"`
 	Queries []Q        `json:"queries"`
+	// Phases > 1: the deliveries and the queries are cut into that many segments and alternate ("at any moment":
+	// the same running service answers before and after later headers and reorganisations); every phase ends with
+	// a sweep over all stored headers.
+	Phases int `json:"phases,omitempty"`
 }
 
 func nodeAt(t *model.Tree, idx int) (*model.Node, string) {
@@ -356,36 +360,63 @@ func runC04(p *C04Plan) (*stats.Case, error) {
 		return nil, fmt.Errorf("infra: %w", err)
 	}
 	defer r.Close()
-	for step, idx := range p.Hist.Delivery {
-		if idx < 0 || idx >= len(r.Headers) {
-			continue
-		}
-		if _, _, err := r.Deliver(idx); err != nil {
-			return nil, fmt.Errorf("step %d: %w", step, err)
-		}
+	phases := p.Phases
+	if phases < 1 {
+		phases = 1
 	}
-	if err := r.CompareTable(false); err != nil {
-		return nil, err
-	}
-	before, err := r.S.Digest()
-	if err != nil {
-		return nil, fmt.Errorf("infra: %w", err)
-	}
+	nD, nQ := len(p.Hist.Delivery), len(p.Queries)
 	twoBranch := 0
 	kinds := map[string]int64{}
-	for i, q := range p.Queries {
-		two, err := evalQuery(r, q)
+	relabelled := 0
+	labels := map[string]string{}
+	for ph := 0; ph < phases; ph++ {
+		for step := ph * nD / phases; step < (ph+1)*nD/phases; step++ {
+			idx := p.Hist.Delivery[step]
+			if idx < 0 || idx >= len(r.Headers) {
+				continue
+			}
+			if _, _, err := r.Deliver(idx); err != nil {
+				return nil, fmt.Errorf("step %d: %w", step, err)
+			}
+		}
+		if err := r.CompareTable(false); err != nil {
+			return nil, err
+		}
+		before, err := r.S.Digest()
 		if err != nil {
-			return nil, fmt.Errorf("query %d %+v: %w", i, q, err)
+			return nil, fmt.Errorf("infra: %w", err)
 		}
-		if two {
-			twoBranch++
+		hiQ := (ph + 1) * nQ / phases
+		for i := ph * nQ / phases; i < hiQ; i++ {
+			q := p.Queries[i]
+			two, err := evalQuery(r, q)
+			if err != nil {
+				return nil, fmt.Errorf("phase %d query %d %+v: %w", ph, i, q, err)
+			}
+			if two {
+				twoBranch++
+			}
+			kinds[fmt.Sprintf("q_kind_%d", q.Kind)]++
+			if i%8 == 7 || i == hiQ-1 {
+				after, _ := r.S.Digest()
+				if after != before {
+					return nil, fmt.Errorf("store changed by read queries up to %d %+v", i, q)
+				}
+			}
 		}
-		kinds[fmt.Sprintf("q_kind_%d", q.Kind)]++
-		if i%8 == 7 || i == len(p.Queries)-1 {
+		if phases > 1 {
+			for _, n := range r.T.Order {
+				if err := checkServiceViews(r, n); err != nil {
+					return nil, fmt.Errorf("phase %d sweep over all stored headers: %w", ph, err)
+				}
+				if old, ok := labels[n.HashStr]; ok && old != n.Label {
+					relabelled++
+				}
+				labels[n.HashStr] = n.Label
+			}
 			after, _ := r.S.Digest()
 			if after != before {
-				return nil, fmt.Errorf("store changed by read queries up to %d %+v", i, q)
+				return nil, fmt.Errorf("store changed by the sweep of phase %d", ph)
 			}
 		}
 	}
@@ -401,6 +432,10 @@ func runC04(p *C04Plan) (*stats.Case, error) {
 	}
 	cl["queries"] = int64(len(p.Queries))
 	cl["queries_touching_two_branches"] = int64(twoBranch)
+	cl[fmt.Sprintf("phases_%d", phases)] = 1
+	if relabelled > 0 {
+		cl["header_asked_before_and_after_its_label_changed"] = 1
+	}
 	nt := nonLongestBranches >= 1 && twoBranch > 0
 	return &stats.Case{Sig: stats.Sig(planSig(p.Hist), fmt.Sprint(p.Queries)), Nontrivial: nt, Classes: cl, Sample: p}, nil
 }
@@ -410,7 +445,7 @@ var propC04 = Prop[*C04Plan]{
 	Name: "TestC04",
 	Gen: func(t *rapid.T) *C04Plan {
 		h := hist.Gen(t, hist.GenOpts{MaxSpecs: quickThorough(24, 60), MinSpecs: 3, NoForbidden: true})
-		p := &C04Plan{Hist: h}
+		p := &C04Plan{Hist: h, Phases: rapid.SampledFrom([]int{1, 1, 2, 3, 4}).Draw(t, "phases")}
 		nq := rapid.IntRange(10, quickThorough(50, 120)).Draw(t, "nq")
 		for i := 0; i < nq; i++ {
 			q := Q{Kind: rapid.SampledFrom([]int{0, 1, 2, 2, 3, 4, 5, 5, 5, 5, 6, 6, 6}).Draw(t, "qk")}
